@@ -65,12 +65,13 @@ def truthyO : Option (Val N) → Bool
 
 mutual
 /-- eval.go `eq` (numbers/strings/booleans by value, arrays and objects structurally,
-    null = null, functions never equal). -/
+    null = null; function values are compared by identity: a built-in equals itself, closures created by different evaluations never compare equal). -/
 def valEq : Val N → Val N → Bool
   | .num a, .num b => beq a b
   | .str a, .str b => a == b
   | .bool a, .bool b => a == b
   | .null, .null => true
+  | .builtin a, .builtin b => a == b   -- one process-wide object per built-in
   | .arr xs, .arr ys => listEq xs ys
   | .obj xs, .obj ys => xs.length == ys.length && objSub xs ys
   | _, _ => false
